@@ -13,7 +13,7 @@
 From mathcomp Require Import all_ssreflect all_algebra.
 From Coq Require Import List Reals.
 From PA Require Import base.Arr base.MxNp gen.MatrixExpr gen.DrSites model.LinOps model.HansenLaw
-  model.Symmetry proofs.MxAlgebra proofs.LinOpsProofs proofs.HansenLawProofs proofs.DrSitesProofs
+  model.Symmetry proofs.MxAlgebra proofs.LinOpsProofs proofs.HansenLawProofs proofs.DrSitesProofs proofs.DirectScaling
   proofs.C06R proofs.SymLinear.
 Import GRing.Theory Num.Theory.
 
@@ -220,20 +220,25 @@ Theorem C04_dr_onion_bordas : forall dr y : R, dr <> 0 -> g_ob_scale dr y = / dr
 Proof. exact ob_scale_dr. Qed.
 Print Assumptions C04_dr_onion_bordas.
 
-(* direct: every trapezoid term scales with dr (forward) and 1/dr (inverse);
-   the summation of the terms and the end-cell correction are NOT modelled
-   (checked on the implementation): _partial *)
-Theorem C04_dr_direct_partial :
-  forall c pi i j v : R, 0 < c -> pi <> 0 -> 0 <= i < j ->
-  g_direct_weight (c * 1) (g_direct_grid c j) (g_direct_grid c i) (g_direct_pre_forward (g_direct_grid c j) v) =
-    c * g_direct_weight 1 j i (g_direct_pre_forward j v) /\
-  g_direct_weight (c * 1) (g_direct_grid c j) (g_direct_grid c i) (g_direct_pre_inverse c pi v) =
-    / c * g_direct_weight 1 j i (g_direct_pre_inverse 1 pi v).
+(* direct (python backend): the whole integral of _pyabel_direct_integral -- trapezoid sums over the mask
+   i < j, minus half the sum over the first two points, plus the analytic end-cell correction -- assembled
+   (proofs/DirectScaling.v) from the element-wise expressions GENERATED from direct.py (gen/DrSites.v; the
+   assembling statements are pinned by the translator), numpy.trapezoid by specification, arccosh any
+   function.  On the grid r = arange(n)*dr: forward = dr x (dr = 1 result), inverse = (dr = 1 result)/dr,
+   for every output pixel i, with and without the correction. *)
+Theorem C04_dr_direct :
+  forall (acosh : R -> R) (k0 : R) (n : nat) (c : R), 0 < c ->
+  (forall (v : nat -> R) (correction : bool) (i : nat),
+     direct_out acosh k0 n (fun k => g_direct_grid c (INR k))
+       (fun k => g_direct_pre_forward (g_direct_grid c (INR k)) (v k)) (c * 1) correction i =
+     c * direct_out acosh k0 n INR (fun k => g_direct_pre_forward (INR k) (v k)) 1 correction i) /\
+  (forall (pi : R) (g : nat -> R) (correction : bool) (i : nat), pi <> 0 ->
+     direct_out acosh k0 n (fun k => g_direct_grid c (INR k)) (fun k => g_direct_pre_inverse c pi (g k)) (c * 1) correction i =
+     / c * direct_out acosh k0 n INR (fun k => g_direct_pre_inverse 1 pi (g k)) 1 correction i).
 Proof.
-exact (fun c pi i j v Hc Hpi Hij => conj (direct_forward_term_dr c i j v Hc Hij)
-                                       (direct_inverse_term_dr c pi i j v Hc Hpi Hij)).
+exact (fun acosh k0 n c Hc => conj (direct_forward_dr acosh k0 n c Hc) (direct_inverse_dr acosh k0 n c Hc)).
 Qed.
-Print Assumptions C04_dr_direct_partial.
+Print Assumptions C04_dr_direct.
 
 (* ---- image tools: symmetrisation is linear (C06 model) -------------------------- *)
 Theorem C04_symmetrize_linear :
